@@ -230,9 +230,20 @@ def work(P, item):
     label = f"PFITSReader.{'read_block' if kind == 'block' else 'read_plan'}[foff={foff:+g}{',nsamps=None' if none else ''}]"
     rf = real_file_params()
 
+    wit = [3]
+
     def on_path(ctx, o):
         Ctx.cur = ctx
         P.reached += 1
+        if wit[0] > 0 and rf is not None and foff < 0 and o["viol"] and ctx.check(z3.Or([c for _, c in o["viol"]])) == z3.unsat:
+            v = o["vars"]
+            if ctx.check(v["NSBLK"] == rf[0], v["nrows"] == rf[1]) == z3.sat:
+                wit[0] -= 1
+                m = ctx.solver.model()
+                wp = dict(kind=o["kind"])
+                for k_, t in v.items():
+                    wp[k_] = None if t is None else m.eval(t, model_completion=True).as_long()
+                P.witness("c18", wp, f"{o['kind']}-witness-{wit[0]}", label)
         for n_, c in o["viol"]:
             if ctx.check(c) == z3.unsat:
                 P.obligation(f"{label}/{n_}", "holds", outcome=o["outcome"])
